@@ -28,7 +28,7 @@ def cut_key(c):
             return "truncated-complete:close-delimited-reply-%s%s" % (how, via)
         return "truncated-complete:%s-reply-delivered-close-delimited-to-%s-client" % (c["framing"], c["proto"].replace("/", "").lower())
     if v == "complete":
-        return "truncated-complete:%s-reply-%s-framing-at-client" % (c["framing"], client)
+        return "truncated-complete:%s-reply-%s-framing-at-client%s" % (c["framing"], client, "-handler-mode" if c.get("route") == "handler" else "")
     if v == "malformed":
         return "mixed-or-malformed:%s-reply-%s%s" % (c["framing"], c["end"], "-pipelined" if c.get("pipelined") else "")
     if c.get("client_end") not in ("eof", "reset"):
@@ -39,7 +39,7 @@ def cut_key(c):
 def run(ctx):
     info, ob_failed = g.prepare(ctx, PROP_FILE)
     meta, herr = g.run_harness(ctx, "c12", ["-status-literals", status_literals()], timeout=1500)
-    e_bad_m, e_bad_p, c_bad_m, c_bad_p, s_bad_m, s_bad_p = [], [], [], [], [], []
+    e_bad_m, e_bad_p, c_bad_m, c_bad_p, s_bad_m, s_bad_p, g_bad_m, g_bad_p = [], [], [], [], [], [], [], []
     hostile = []
     if meta is None:
         ob_failed.append(herr)
@@ -56,9 +56,10 @@ def run(ctx):
             kind, idx = shard.split("_")[0], int(shard.split("_")[1].split(".")[0])
             base = idx * meta["shard_size"]
             sj = g.load_jsonl(os.path.join(ctx.work, "scases.jsonl"))
-            src = {"ecases": ej, "ccases": cj, "scases": sj}[kind]
-            for ident, acc in (("M", {"ecases": e_bad_m, "ccases": c_bad_m, "scases": s_bad_m}[kind]),
-                               ("P", {"ecases": e_bad_p, "ccases": c_bad_p, "scases": s_bad_p}[kind])):
+            gj = g.load_jsonl(os.path.join(ctx.work, "pgcases.jsonl"))
+            src = {"ecases": ej, "ccases": cj, "scases": sj, "pgcases": gj}[kind]
+            for ident, acc in (("M", {"ecases": e_bad_m, "ccases": c_bad_m, "scases": s_bad_m, "pgcases": g_bad_m}[kind]),
+                               ("P", {"ecases": e_bad_p, "ccases": c_bad_p, "scases": s_bad_p, "pgcases": g_bad_p}[kind])):
                 for i in (ctx.parse_nlist(r.get(ident)) or []):
                     acc.append(src[base + i] if base + i < len(src) else {"index": base + i, "name": "?"})
 
@@ -79,6 +80,13 @@ def run(ctx):
                                                      "unchecked": "correspondence G12.Errors.classify vs HTTPProxy.errorResponse"}, False,
                       "%d synthetic errors where model and implementation choose different statuses (or the two parsers disagree); e.g. %s: "
                       "implementation %s, features %s" % (len(e_bad_m), c["name"], c.get("code"), json.dumps(c.get("feat"))))
+    # error pages under concurrency
+    if g_bad_p:
+        c = g_bad_p[0]
+        ctx.violation("error-page-of-another-request", {"kind": "pages", "name": ""}, True,
+                      "%d of the concurrently failing requests got an error response whose page does not belong to the error in its own "
+                      "X-Forwarder-Error / its own target; e.g. target %s: status %s, X-Forwarder-Error %r, body %r" % (
+                          len(g_bad_p), c.get("target"), c.get("status"), c.get("err_hdr"), c.get("body", "")[:200]))
     # fault classes end to end
     want = {"connfail": "502", "tlsfail": "502", "timeout": "504", "rejected": "the upstream proxy's status", "other": "5xx", "refusal": "4xx/5xx"}
     skeys = set()
@@ -167,7 +175,7 @@ def run(ctx):
         ]),
         "theorems": info["theorems"],
         "unchecked_obligations": ob_failed,
-        "evaluations": int(meta.get("classifier_cases", 0)) + int(meta.get("cut_cases", 0)) + int(meta.get("hostile_cases", 0)) + int(meta.get("status_cases", 0)),
+        "evaluations": int(meta.get("classifier_cases", 0)) + int(meta.get("cut_cases", 0)) + int(meta.get("hostile_cases", 0)) + int(meta.get("status_cases", 0)) + int(meta.get("page_cases", 0)),
         "distinct_nontrivial": int(meta.get("cut_cases", 0)) + len(meta.get("classifier_codes", {})),
         "rule": "classifier: every error atom alone, wrapped, and seeded joins of 2-3 atoms x http/https; cut sweep: every cut point k of "
                 "the origin reply (direct route, HTTP/1.1: all k; other combinations: stride 2 or 3 in quick, all k in thorough) x FIN/RST "
@@ -176,7 +184,7 @@ def run(ctx):
                 "distinct_nontrivial = cut cases + distinct classifier outcomes",
         "traces_validated_against_impl": int(meta.get("classifier_cases", 0)) + int(meta.get("cut_cases", 0)),
         "model_mismatches": len(e_bad_m) + len(c_bad_m) + len(s_bad_m),
-        "property_failures_on_impl": len(e_bad_p) + len(c_bad_p) + len(s_bad_p),
+        "property_failures_on_impl": len(e_bad_p) + len(c_bad_p) + len(s_bad_p) + len(g_bad_p),
         "distribution": {"classifier_codes": meta.get("classifier_codes"), "cut_outcomes": meta.get("cut_outcomes"), "status_classes": meta.get("status_classes"),
                          "hostile_cases": meta.get("hostile_cases"),
                          "hostile_crashes": sum(1 for h in hostile if h.get("crashed")),
